@@ -253,6 +253,20 @@ func (e *Environment) SetLocal(name string, val object.Object) object.Object {
 	return val
 }
 
+// DeclareLocal binds a variable in the innermost scope, whether or not
+// an enclosing scope already holds a variable of the same name.
+//
+// This is what function-parameters, `local` declarations, and the loop
+// variables of `foreach` need: they are new variables which shadow any outer
+// one for as long as their scope lives.  (SetLocal, by contrast, updates the
+// nearest existing binding, which is right for assignments.)
+func (e *Environment) DeclareLocal(name string, val object.Object) object.Object {
+	if len(e.local) > 0 {
+		e.local[len(e.local)-1][name] = val
+	}
+	return val
+}
+
 // SetFunction makes a (golang) function available to the scripting
 // environment.
 func (e *Environment) SetFunction(name string, fun interface{}) interface{} {
